@@ -548,6 +548,18 @@ def _algebra(ctx, spec, states, n):
         checks.append(("state-construction", sv, v))
         checks.append(("apply_to", np.asarray(A_.apply_to(S).to_qobj().full()).reshape(-1), Am @ v))
         checks.append(("expect", np.asarray(A_.expect(S)), v.conj() @ Am @ v))
+        # application to a MIXED state, with a non-Hermitian operator: O rho O^dagger
+        import qutip
+
+        w = np.zeros_like(v)
+        w[-1] = 1.0
+        rho = 0.6 * np.outer(v, v.conj()) + 0.4 * np.outer(w, w.conj())
+        dims = S.to_qobj().dims[0]
+        R = QutipState(qutip.Qobj(rho, dims=[dims, dims]), eigenstates=tuple(states))
+        C_, Cm = (0.3 + 0.7j) * (A_ @ B_) + A_, (0.3 + 0.7j) * (Am @ Bm) + Am
+        checks.append(("apply_to-mixed", np.asarray(C_.apply_to(R).to_qobj().full()), Cm @ rho @ Cm.conj().T))
+        checks.append(("expect-mixed", np.asarray(C_.expect(R)), np.trace(Cm @ rho)))
+        ctx.stats["probe/algebra_mixed_state"] += 1
     for name, got, exp in checks:
         if np.abs(np.asarray(got) - np.asarray(exp)).max() > 1e-10:
             ctx.viol(f"C20/algebra-{name}", 0, f"{name} on operators/states of the run differs from the matrix computation by {np.abs(np.asarray(got) - np.asarray(exp)).max():.3g}")
